@@ -138,6 +138,8 @@ def _same_result(Ya, Yb, kap, what):
     Returns a message or None."""
     if [G.shape for G in Ya] != [G.shape for G in Yb]:
         return f'{what}: core shapes differ {[G.shape for G in Ya]} vs {[G.shape for G in Yb]}'
+    if not (gen.finite(Ya) and gen.finite(Yb)):
+        return f'{what}: non-finite cores'
     A, B = gen.dense(Ya), gen.dense(Yb)
     dist, nrm = np.linalg.norm(A - B), np.linalg.norm(A)
     tol = 1e5 * EPS * kap
@@ -148,6 +150,16 @@ def _same_result(Ya, Yb, kap, what):
     tol = 1e6 * EPS * kap
     if not dcc <= tol * sc + 1e-100:
         return f'{what}: cores differ, rel. {dcc / max(sc, 1e-300):.3e} > {tol:.1e} (kappa {kap:.1e})'
+    return None
+
+
+def _nonfinite(*named):
+    """Message if one of the (name, tensor) pairs - results of the library - has a non-finite entry, else None
+    (checked BEFORE the conditioning rule: kappa is computed from these tensors, and a blown-up result must not
+    be SKIPped as 'ill-conditioned')."""
+    for what, Y in named:
+        if not gen.finite(Y):
+            return f'{what}: non-finite cores'
     return None
 
 
@@ -235,10 +247,10 @@ def descent(n, r, m, lamb, weighted, nswp, seed):
     Y = teneva.als(I, y, Y0, nswp=nswp, e=None, lamb=lamb, w=w, cb=cb)
     if len(traj) != nswp + 1:
         return FAIL(f'{len(traj) - 1} callback calls for {nswp} sweeps')
-    if abs(traj[-1] - _obj(Y, I, y, lamb, w)) > 1e-12 * traj[-1]:
+    if not abs(traj[-1] - _obj(Y, I, y, lamb, w)) <= 1e-12 * traj[-1]:
         return FAIL('returned tensor is not the one shown to the last callback')
     for t in range(nswp):
-        if traj[t + 1] > traj[t] * (1 + 1e-10) + 1e-300:
+        if not traj[t + 1] <= traj[t] * (1 + 1e-10) + 1e-300:
             return FAIL(f'objective increased in sweep {t + 1}: {traj[t]:.15e} -> {traj[t + 1]:.15e}; trajectory {traj}')
     return PASS if traj[1] < traj[0] else TRIVIAL('no decrease at all')
 
@@ -271,13 +283,17 @@ def restart(n, r, m, lamb, weighted, nswp, seed):
     """a+b sweeps equal a sweeps followed by a restart for b sweeps, for every split of nswp."""
     I, y, w, Y0 = _problem(n, r, m, lamb, weighted, seed)
     Y = teneva.als(I, y, Y0, nswp=nswp, e=None, lamb=lamb, w=w)
+    msg = _nonfinite((f'{nswp} sweeps', Y))
+    if msg:
+        return FAIL(msg)
     kap = _kappa([Y0, Y], I, lamb, w)
     if kap > KAPPA_MAX:
         return _ill(kap)
     for a in range(1, nswp):
         Ya = teneva.als(I, y, Y0, nswp=a, e=None, lamb=lamb, w=w)
         Yb = teneva.als(I, y, Ya, nswp=nswp - a, e=None, lamb=lamb, w=w)
-        msg = _same_result(Y, Yb, max(kap, _kappa([Ya], I, lamb, w)), f'{nswp} sweeps vs {a} + {nswp - a}')
+        msg = _nonfinite((f'{a} sweeps', Ya), (f'{a} + {nswp - a} sweeps', Yb)) \
+            or _same_result(Y, Yb, max(kap, _kappa([Ya], I, lamb, w)), f'{nswp} sweeps vs {a} + {nswp - a}')
         if msg:
             return FAIL(msg)
     return PASS if nswp > 1 else TRIVIAL('single sweep')
@@ -295,6 +311,9 @@ def permutation(n, r, m, lamb, weighted, nswp, seed, pseed):
     p = p[q]
     Y = teneva.als(I, y, Y0, nswp=nswp, e=None, lamb=lamb, w=w)
     Yp = teneva.als(I[p], y[p], Y0, nswp=nswp, e=None, lamb=lamb, w=None if w is None else w[p])
+    msg = _nonfinite(('original order', Y), ('permuted order', Yp))
+    if msg:
+        return FAIL(msg)
     kap = _kappa([Y0, Y, Yp], I, lamb, w)
     if kap > KAPPA_MAX:
         return _ill(kap)
@@ -317,6 +336,9 @@ def duplicates_as_weights(n, r, m, lamb, nswp, seed):
     Yd = teneva.als(I[rep], y[rep], Y0, nswp=nswp, e=None, lamb=lamb)
     cw = c.astype(float)
     Yw = teneva.als(I, y, Y0, nswp=nswp, e=None, lamb=lamb, w=cw)
+    msg = _nonfinite(('weights c_s', Yw), ('c_s-fold duplicates', Yd))
+    if msg:
+        return FAIL(msg)
     kap = _kappa([Y0, Yw, Yd], I, lamb, cw)
     if kap > KAPPA_MAX:
         return _ill(kap)
@@ -372,6 +394,9 @@ def _single_sample(n, r, lamb, nswp, seed, mode, pos):
     if np.array_equal(Y[mode][:, j, :], Y0[mode][:, j, :]):
         return FAIL(f'slice {j} of mode {mode}, covered by the single sample at list position {where} of {total}, '
                     f'still has exactly its initial value after {nswp} sweeps: it was never trained')
+    msg = _nonfinite((f'single sample at position {where}', Y), ('single sample listed elsewhere', Yo))
+    if msg:
+        return FAIL(msg)
     kap = _kappa([Y0, Yo], Io, lamb, None)
     if kap > KAPPA_MAX:
         return _ill(kap)
@@ -541,6 +566,8 @@ def info_stop(n, r, m, lamb, nswp, seed, adaptive):
     Y, info, traj = run(nswp=nswp, e=None, I_vld=I_vld, y_vld=y_vld)
     if info['e_vld'] != traj[-1]['e_vld'] or info['e'] != traj[-1]['e']:
         return FAIL('final info differs from the info shown to the last callback')
+    if not all(np.isfinite(t[key]) for t in traj for key in ('e', 'e_vld')):
+        return FAIL(f"non-finite reported e / e_vld (no threshold can be placed): {[(t['e'], t['e_vld']) for t in traj]}")
     for s in range(1, nswp + 1):
         e_s = traj[s - 1]['e']
         if e_s > 0 and all(t['e'] > e_s * 1.001 for t in traj[:s - 1]):
@@ -632,7 +659,7 @@ def f_descent(d, nm, r, m, lamb, nswp, seed, box):
     if gen.snapshot((X, y, A0)) != before:
         return FAIL('arguments were modified')
     for t in range(nswp):
-        if traj[t + 1] > traj[t] * (1 + 1e-10):
+        if not traj[t + 1] <= traj[t] * (1 + 1e-10):
             return FAIL(f'objective increased in sweep {t + 1}: {traj}')
     return PASS
 
@@ -662,13 +689,17 @@ def f_restart(d, nm, r, m, lamb, nswp, seed, box):
     """a+b sweeps equal a sweeps then b sweeps from the result."""
     X, y, A0, H = _fproblem(d, nm, r, m, seed, box)
     A = teneva.als_func(X, y, A0, box[0], box[1], nswp=nswp, e=None, lamb=lamb)
+    msg = _nonfinite((f'{nswp} sweeps', A))
+    if msg:
+        return FAIL(msg)
     kap = _fkappa([A0, A], H, lamb)
     if kap > KAPPA_MAX:
         return _ill(kap)
     for a_ in range(1, nswp):
         Aa = teneva.als_func(X, y, A0, box[0], box[1], nswp=a_, e=None, lamb=lamb)
         Ab = teneva.als_func(X, y, Aa, box[0], box[1], nswp=nswp - a_, e=None, lamb=lamb)
-        msg = _same_result(A, Ab, max(kap, _fkappa([Aa], H, lamb)), f'{nswp} sweeps vs {a_} + {nswp - a_}')
+        msg = _nonfinite((f'{a_} sweeps', Aa), (f'{a_} + {nswp - a_} sweeps', Ab)) \
+            or _same_result(A, Ab, max(kap, _fkappa([Aa], H, lamb)), f'{nswp} sweeps vs {a_} + {nswp - a_}')
         if msg:
             return FAIL(msg)
     return PASS if nswp > 1 else TRIVIAL('single sweep')
@@ -681,6 +712,9 @@ def f_permutation(d, nm, r, m, lamb, nswp, seed, box, pseed):
     p = gen.rng('C07fperm', pseed).permutation(m)
     A = teneva.als_func(X, y, A0, box[0], box[1], nswp=nswp, e=None, lamb=lamb)
     Ap = teneva.als_func(X[p], y[p], A0, box[0], box[1], nswp=nswp, e=None, lamb=lamb)
+    msg = _nonfinite(('original order', A), ('permuted order', Ap))
+    if msg:
+        return FAIL(msg)
     kap = _fkappa([A0, A, Ap], H, lamb)
     if kap > KAPPA_MAX:
         return _ill(kap)
@@ -714,7 +748,7 @@ def f_info_stop(d, nm, r, m, lamb, nswp, seed, box):
     if info['stop'] != 'nswp' or info['nswp'] != nswp:
         return FAIL(f"validation data without threshold: stop {info['stop']!r} after {info['nswp']}")
     own = np.linalg.norm(_fvals(A, _design(Xv, box[0], box[1], nm)) - yv) / np.linalg.norm(yv)
-    if abs(info['e_vld'] - own) > 1e-9 * (1 + own):
+    if not abs(info['e_vld'] - own) <= 1e-9 * (1 + own):
         return FAIL(f"reported e_vld {info['e_vld']:.12e} != own evaluation {own:.12e}")
     info = {}
     A = teneva.als_func(X, y, A0, box[0], box[1], nswp=nswp, e=1e+10, info=info, lamb=lamb, X_vld=Xv, y_vld=yv,
